@@ -59,6 +59,32 @@ def flag_consistency(F, R):
             r = call_bool_branch(b, bi)
             if r and r[0] != 'discr':
                 zs.append((r[0], r[1], r[2]))
+        if not zs:
+            # branch-free form: `flags.set(KA_ENABLED, !timeout.is_zero())`
+            sets_ = [(bi, t) for bi, t, names in flag_calls(b, 'set') if any('KA_ENABLED' in n for n in names) and len(t['args']) > 2]
+            okset = False
+            for bi, t in sets_:
+                # value = Not(is_zero(..)): walk the definitions, counting negations
+                p_, neg = op_place(t['args'][2]), 0
+                for _ in range(6):
+                    ds_ = [d for d in b.whole_defs(p_['l']) if d[0] in b.live] if p_ and not place_proj(p_) else []
+                    if len(ds_) != 1:
+                        break
+                    d_ = ds_[0]
+                    if d_[2] == 'assign' and d_[3]['rv']['k'] == 'un' and d_[3]['rv']['op'] == 'Not':
+                        neg += 1
+                        p_ = op_place(d_[3]['rv']['a'])
+                    elif d_[2] == 'assign' and d_[3]['rv']['k'] == 'use':
+                        p_ = op_place(d_[3]['rv']['op'])
+                    elif d_[2] == 'call' and re.search(r'Seconds::is_zero$', callee_name(d_[3]) or ''):
+                        okset = okset or neg % 2 == 1
+                        break
+                    else:
+                        break
+            R.ob('C20.flag-consistency', '%s|tests timeout.is_zero()' % key, len(sets_) == 1 and okset, 'found no is_zero test and no `flags.set(KA_ENABLED, !timeout.is_zero())` (%d set calls)' % len(sets_))
+            R.ob('C20.flag-consistency', '%s|non-zero=>KA_ENABLED' % key, len(sets_) == 1 and okset, 'KA_ENABLED must be set exactly for a non-zero keep-alive')
+            R.ob('C20.flag-consistency', '%s|zero=>KA_ENABLED-cleared' % key, len(sets_) == 1 and okset, 'with a zero keep-alive the KA_ENABLED flag must be cleared')
+            continue
         R.ob('C20.flag-consistency', '%s|tests timeout.is_zero()' % key, len(zs) == 1, 'found %d is_zero tests' % len(zs))
         for sb, zero_t, nonzero_t in zs:
             zreg = b.reachable(zero_t, avoid=[nonzero_t])
